@@ -20,8 +20,8 @@ PROPS = {
               "invariants I1-I5 are checked. evaluations = model-checked API calls; a case is non-trivial/distinct by its signature "
               "(table class, load decile, tombstones present, log2 buckets, at-full-load) x operation kind, counted as a set across shards"),
         lanes=dict(
-            quick=lanes(("dbg", 7, 20000), ("generic", 5, 20000), ("rel", 4, 20000)),
-            thorough=lanes(("dbg", 16, 240000), ("generic", 16, 240000), ("rel", 8, 240000), ("asan", 8, 120000), ("miri", 8, 180000)),
+            quick=lanes(("dbg", 7, 20000), ("generic", 5, 20000), ("rel", 4, 20000), ("nd", 1, 5000)),
+            thorough=lanes(("dbg", 16, 240000), ("generic", 16, 240000), ("rel", 8, 240000), ("asan", 8, 120000), ("miri", 8, 180000), ("nd", 2, 60000)),
         ),
         require=["rehash_in_place", "resize_grow", "steps_with_tombstones", "class_lt_group", "class_eq_group", "class_gt_group", "steps_at_full_load"],
         assumptions=COMMON_ASSUME,
@@ -167,8 +167,8 @@ PROPS = {
               "contents, len(), capacity(), the live block (ptr,size,align) and the element registry are unchanged. evaluations = (state, additional, refusal) cases; "
               "distinct = (collection, recipe, refusal, outcome, magnitude class of additional, table class)"),
         lanes=dict(
-            quick=lanes(("dbg", 7, 15000), ("generic", 5, 15000), ("rel", 4, 15000)),
-            thorough=lanes(("dbg", 16, 180000), ("generic", 16, 180000), ("rel", 8, 180000), ("asan", 8, 60000)),
+            quick=lanes(("dbg", 7, 15000), ("generic", 5, 15000), ("rel", 4, 15000), ("nd", 1, 4000)),
+            thorough=lanes(("dbg", 16, 180000), ("generic", 16, 180000), ("rel", 8, 180000), ("asan", 8, 60000), ("nd", 2, 60000)),
         ),
         require=["refused_request_reported", "capacity_overflow_reported", "oversize_request_refused_by_cap"],
         assumptions=COMMON_ASSUME + ["requests above 1 MiB are recorded and refused by the checking allocator, never backed by memory"],
